@@ -16,10 +16,11 @@ META = {
         "client JSONTarget), and the read loop leaves on an empty read; C17.4 the request target, obtained by abstract "
         "evaluation of ServerProxy.__init__ and _run_request over URL shapes, is path [+ '?' + query] with '/' substituted "
         "only for an empty path and always for unix+ URLs; C17.5 the same evaluation shows every scheme outside "
-        "{http, https, unix+http} raising IOError in the constructor and every accepted one storing a transport."),
+        "{http, https, unix+http} raising IOError in the constructor and every accepted one storing a transport; C17.6 (imported from "
+        "C19.3) each response is fed into a parser/target created for it, and close() returns exactly the join of what was fed."),
     "does_not_decide": "gzip decoding, HTTP parsing, actual byte streams (http.client behaviour).",
     "rules": {"C17.1": "same-reaching-definition (E2) + provenance", "C17.2": "provenance", "C17.3": "loop-body call scan + reachability",
-              "C17.4": "shape interpreter (E7) over URL shapes", "C17.5": "shape interpreter over schemes vs spec A.7"},
+              "C17.4": "shape interpreter (E7) over URL shapes", "C17.5": "shape interpreter over schemes vs spec A.7", "C17.6": "imported C19.3"},
     "assumptions": ["urllib.parse.urlparse splits scheme/netloc/path/query as documented (its result is stubbed per case)"],
 }
 
@@ -183,6 +184,11 @@ def check(ck):
     ck.stat("url_cases", n4)
     ck.floor("C17.4", 20)
     ck.floor("C17.5", 30)
+
+    # ---- C17.6 each response is reassembled in its own buffer (shared with C19.3) -------------------------------------------
+    from rules import c19, common
+    common.import_rules(ck, c19, {"C19.3": "C17.6"})
+    ck.floor("C17.6", 8)
 
 
 def _reach_before_exit(g, start, head):
